@@ -35,7 +35,11 @@ EXPLANATION = (
     "R3 PopulationTemplate.apply: a parameter whose length equals self.n is used element by element in order, anything else is "
     "replicated self.n times; value, shape and node length are all set from n; the parameter is looked up under the op/var of the "
     "variable being expanded.  R4 every injection of generated variable names into an operator's variable dict is dominated by a "
-    "raising collision test (D-9), and CircuitTemplate.update_template forwards every constructor parameter (D-12).  NOT decided: "
+    "raising collision test (D-9), and CircuitTemplate.update_template forwards every constructor parameter (D-12).  R5 producer/consumer "
+    "agreement on the source records of a generated in-edge operator: every record stored under the `inputs` handed to add_op (followed "
+    "through the private helpers of NetworkGraph._generate_edge_equation) has the keys CircuitIR._collect_ops reads ('sources', 'node', "
+    "'var'), so the consumer's fallback to the source operator's declared output is never taken for an edge source; the consumer passes "
+    "the record's 'var' on to the '<node>/<op>/<var>' lookup.  NOT decided: "
     "numerical equality of trajectories, the semantics of numpy/einsum (trusted), edge templates with more than the enumerated forms, "
     "user edge dictionaries that themselves contain source_idx/target_idx."
 )
@@ -1234,5 +1238,5 @@ RULES = [
     ("C16-R2", r2_coupling_helpers, 14),
     ("C16-R3", r3_population_params, 6),
     ("C16-R4", r4_collision_and_forwarding, 10),
-    ("C16-R5", r5_source_records, 4),
+    ("C16-R5", r5_source_records, 3),
 ]
